@@ -277,7 +277,14 @@ impl AsmParser {
             }
         };
 
-        debug_assert!(self.toks.next().is_none(), "expected end of line");
+        // Exactly one instruction is allowed
+        if let Some(extra) = self.toks.next() {
+            return Err(error::parse_generic_unexpected(
+                self.src,
+                "end of line",
+                extra,
+            ));
+        }
 
         Ok(stmt)
     }
